@@ -494,7 +494,7 @@ func readableModel(m map[string]string) map[string]string {
 
 // scheduleDependent: assertion ids whose counterexamples depend on the goroutine schedule, not only on the input.
 func scheduleDependent(aid string) bool {
-	return strings.Contains(aid, "noleak") || strings.HasPrefix(aid, "deadlock@") || strings.Contains(aid, "ctxerr")
+	return strings.Contains(aid, "noleak") || strings.HasPrefix(aid, "deadlock@") || strings.Contains(aid, "ctxerr") || strings.HasPrefix(aid, "C10.same/")
 }
 
 // evidenceBase: /verif, except in development runs against a scratch copy (VERIF_REPO), whose evidence and
